@@ -129,12 +129,15 @@ func c12Scenarios(tier string) []e3Scenario {
 	var out []e3Scenario
 	for _, sp := range c12Specs {
 		threads := len(sp.servers) + len(sp.mutators)
-		if tier != "thorough" && threads > 2 {
+		if tier != "thorough" && threads > 2 && sp.name != "two-removes" && sp.name != "two-adds" {
 			continue
 		}
 		for _, jsr := range []bool{false, true} {
 			for _, serve := range []bool{true, false} {
 				bound := 4
+				if threads > 2 {
+					bound = 2
+				}
 				if tier == "thorough" {
 					bound = 4
 					if threads == 2 {
@@ -151,6 +154,6 @@ func c12Scenarios(tier string) []e3Scenario {
 func checkC12(run *h.Run) {
 	e3RunAll(run, nil)
 	run.Cov["distinct_nontrivial"] = run.Cov["schedules"]
-	run.Cov["rule"] = "E3: all schedules of serving threads against mutating threads (Add, Remove, Route, RemoveRoute, and a condition function that panics while the container lock is held) on the real instrumented package, both routers x both entry points, iterative preemption bounding (quick: 2 threads bound 4; thorough: 2 threads bound 10, 3 threads bound 4). Oracles on every execution: vector-clock happens-before race detection over every struct field and package variable access of the package, no panic, no deadlock, and linearizability (porcupine) of the call/return history against the real container replayed sequentially (status, route, Allow set)."
+	run.Cov["rule"] = "E3: all schedules of serving threads against mutating threads (Add, Remove, Route, RemoveRoute, and a condition function that panics while the container lock is held) on the real instrumented package, both routers x both entry points, iterative preemption bounding (quick: 2 threads bound 4, two concurrent mutators + a server bound 2; thorough: 2 threads bound 10, 3 threads bound 4). Oracles on every execution: vector-clock happens-before race detection over every struct field and package variable access of the package, no panic, no deadlock, and linearizability (porcupine) of the call/return history against the real container replayed sequentially (status, route, Allow set)."
 	run.Assume = []string{"sequential consistency at synchronisation granularity; races are reported as violations outright", "field-granular race detection (element-level accesses are covered by the free-running -race pass only)", "net/http.ServeMux internals executed, not instrumented"}
 }
